@@ -200,12 +200,30 @@ Proof.
 Qed.
 Print Assumptions C19_ias15_compression_invisible.
 
-(* the invisibility is for an unchanged particle number only: remove -> serialise -> add (N back within the old allocation) makes the
-   next step of the OBSERVED run re-allocate and zero, that of the unobserved run not (open finding ias15:stale_arrays_after_remove_then_add) *)
+(* the invisibility lemma above is for an unchanged particle number: with an allocation left over from a LARGER particle number,
+   remove -> serialise -> add would make the next step of the observed run re-allocate and zero, that of the unobserved run not.
+   (This was the defect ias15:stale_arrays_after_remove_then_add; the repaired code below never has such a left-over allocation.) *)
 Theorem C19_compression_visible_when_N_grows_back : exists a n n', n < n' /\ 3 * n' <= a /\
   ias15_step_reallocates a n' = false /\ ias15_step_reallocates (ias15_compress a n) n' = true.
 Proof. exact ias15_compress_visible_when_N_grows_back. Qed.
 Print Assumptions C19_compression_visible_when_N_grows_back.
+
+(* repaired code (/repo c5e34ac): add and remove forget the IAS15 arrays (N_allocated := 0) when IAS15 is the integrator, so whenever a
+   serialisation can run, N_allocated is 0 (after an add/remove) or 3*N of the CURRENT N (after a step), or 3*encounter_N <= 3*N; on all
+   of these the compression is the identity: serialising never changes N_allocated, in any history *)
+Theorem C19_ias15_arrays_forgotten_on_particle_change :
+  particle_number_writers = ["reb_simulation_add_local_store"; "reb_simulation_remove_all_particles"; "reb_simulation_remove_particle"] /\
+  ias15_reset_on_particle_change = ["reb_simulation_add_local"; "reb_simulation_remove_particle"] /\
+  ias15_reset_N_allocated_values = ["0"].
+Proof. exact gen_ias15_reset_on_particle_change. Qed.
+Print Assumptions C19_ias15_arrays_forgotten_on_particle_change.
+
+Theorem C19_compression_identity_on_reachable_allocations :
+  (forall a n, a <= 3 * n -> ias15_compress a n = a) /\
+  (forall n n', ias15_compress 0 n = 0 /\ ias15_compress (3 * n) n = 3 * n /\
+                ias15_step_reallocates (ias15_compress 0 n) n' = ias15_step_reallocates 0 n').
+Proof. exact (conj ias15_compress_identity ias15_compress_identity_reset_or_stepped). Qed.
+Print Assumptions C19_compression_identity_on_reachable_allocations.
 
 Theorem C19_compress_to_real_particles_is_visible : exists a n nvar,
   let a' := if Nat.ltb (3 * (n - nvar)) a then 3 * (n - nvar) else a in
